@@ -227,6 +227,8 @@ class DtdMapper:
             cls.build_content_tree(target, content, **params)
         else:  # content_type == DtdContentType.PCDATA:
             restrictions = cls.build_restrictions(content.occur, **kwargs)
+            # The character data is one value, however often its group repeats
+            restrictions.max_occurs = 1
             cls.build_value(target, restrictions)
 
     @classmethod
